@@ -85,6 +85,12 @@ class Prop(common.PropertyCheck):
                     if f in fields:
                         for pos in positions:
                             yield {'k': 'corrupt', 'spec': spec, 'field': f, 'delta': ['to', pos]}
+                # the begin offset of the supplemental segment moved into the primary TEXT segment (its first byte, a keyword, its last byte)
+                if segk == 'S' and '$BEGINSTEXT' in fields and 'T' in layout['segs']:
+                    tb, te = layout['segs']['T']
+                    for pos in sorted({tb, tb + 1, tb + 13, (tb + te) // 2, te - 1, te}):
+                        if 0 < pos:
+                            yield {'k': 'corrupt', 'spec': spec, 'field': '$BEGINSTEXT', 'delta': ['to', pos]}
                 # the first byte moved onto every later delimiter of the segment (a well-formed remainder starts there) and into the first pairs
                 dl = ord(spec['delim'])
                 delims = [q for q in range(b + 1, e) if data[q] == dl]
